@@ -163,7 +163,9 @@ def _get_last_line(node_or_leaf):
             # actually before endmarker, CPython just adds a newline to make
             # source code pass the parser, to account for that Parso error
             # recovery allows small_stmt instead of simple_stmt).
-            return last_leaf.end_pos[0] + 1
+            # The line breaks in the prefix are backslash continuations, the
+            # statement reaches as far as they go.
+            return last_leaf.end_pos[0] + len(split_lines(n.prefix)) - 1
         return last_leaf.end_pos[0]
 
 
